@@ -210,10 +210,27 @@ pub struct FilCase {
     /// second class: max_nodes_per_ip / max_bans_per_ip enabled (only B1-B3, B5 asserted)
     pub per_ip_features: bool,
     pub events: Vec<FEv>,
+    /// address family of the three source IPs: 0 IPv4, 1 native IPv6, 2 IPv4-mapped IPv6, 3 one of each
+    #[serde(default)]
+    pub ip_family: u8,
+}
+
+thread_local! {
+    static IP_FAMILY: std::cell::Cell<u8> = const { std::cell::Cell::new(0) };
 }
 
 fn ip_of(i: u8) -> IpAddr {
-    IpAddr::V4(Ipv4Addr::new(10, 9, 0, 1 + i % 3))
+    let i = i % 3;
+    let v4 = Ipv4Addr::new(10, 9, 0, 1 + i);
+    let fam = match IP_FAMILY.with(|f| f.get()) % 4 {
+        3 => i,
+        f => f,
+    };
+    match fam {
+        0 => IpAddr::V4(v4),
+        1 => IpAddr::V6(std::net::Ipv6Addr::new(0x2001, 0xdb8, 0, 9, 0, 0, 0, 1 + i as u16)),
+        _ => IpAddr::V6(v4.to_ipv6_mapped()),
+    }
 }
 
 fn node_of(i: u8) -> NodeId {
@@ -225,6 +242,13 @@ fn node_of(i: u8) -> NodeId {
 
 pub fn run_filter(c: &FilCase) -> CaseReport {
     let mut rep = CaseReport::default();
+    IP_FAMILY.with(|f| f.set(c.ip_family));
+    rep.class(match c.ip_family % 4 {
+        0 => "filter-sources-ipv4",
+        1 => "filter-sources-ipv6",
+        2 => "filter-sources-ipv4-mapped-ipv6",
+        _ => "filter-sources-mixed-families",
+    });
     // reset the process-global lists (cases run sequentially inside one worker process)
     *PERMIT_BAN_LIST.write() = Default::default();
     let hour = Duration::from_secs(3600);
@@ -494,14 +518,15 @@ fn fil_strategy(max: usize) -> BoxedStrategy<FilCase> {
         1 => (0u8..4, any::<bool>()).prop_map(|(node, on)| FEv::BanNode { node, on }),
         1 => Just(FEv::Prune),
     ];
-    (1u8..=6, 1u8..=6, 1u8..=24, any::<bool>(), prop_oneof![4 => Just(false), 1 => Just(true)], proptest::collection::vec(ev, 1..max))
-        .prop_map(|(ip_burst, node_burst, total_burst, ban_1h, per_ip_features, events)| FilCase {
+    (1u8..=6, 1u8..=6, 1u8..=24, any::<bool>(), prop_oneof![4 => Just(false), 1 => Just(true)], proptest::collection::vec(ev, 1..max), prop_oneof![3 => Just(0u8), 1 => Just(1u8), 2 => Just(2u8), 2 => Just(3u8)])
+        .prop_map(|(ip_burst, node_burst, total_burst, ban_1h, per_ip_features, events, ip_family)| FilCase {
             ip_burst,
             node_burst,
             total_burst,
             ban_1h,
             per_ip_features,
             events,
+            ip_family,
         })
         .boxed()
 }
